@@ -51,6 +51,7 @@ func c18(r *mon.R) {
 		add("w:"+cfg.part, r.N(80, 800), func(i int) { c18WProgram(r, cfg, i) })
 	}
 	add("ed", r.N(300, 3000), func(i int) { c18EdProgram(r, i) })
+	add("eddecode", r.N(8, 80), func(i int) { c18EdDecodeAgreement(r, i) })
 	add("hooks", r.N(150, 1500), func(i int) { c18Hooks(r, i) })
 	add("keyderiv", r.N(60, 600), func(i int) { c18KeyDeriv(r, i) })
 
